@@ -454,8 +454,8 @@ def _eval_inner(case, c):
         pb = I.mk_pose(kind, b)
         b = _stored(pb)
         dlt = G.compact(kind, b)
-        if kind == "SE3" and b[6] < 0:
-            dlt = None  # compact form of a w < 0 quaternion is the other hemisphere's pose: no boxplus chain for it
+        if kind == "SE3" and b[6] < 1e-3:
+            dlt = None  # compact form of a w < 0 quaternion is the other hemisphere's pose, and near a half turn w = sqrt(1 - |v|^2) is ill-conditioned (sqrt(eps)): no boxplus chain
         for k in range(case["steps"]):
             if case["mode"] == "right":
                 x = x + pb
